@@ -199,6 +199,34 @@ theorem C12_nested_sound (sub : NSub) (sc : Script) (cfg : NCfg) (hR : NoRaise s
   exact (C12_nested_trigger_spec sub sc cfg hR hC hD hwf x' ev s hc).2.mpr
     (List.any_eq_true.mpr ⟨pr, hm, mayP_imp_trigP sc cfg ev pr hp⟩)
 
+/-- **… at the API level**: on an idle machine that is not queued, `model.may_<event>()` (= `may_trigger(name)`) returns
+a Boolean, leaves the configuration alone, and it is True exactly when `model.<event>()` (= `trigger(name)`), issued
+instead, executes a transition -/
+theorem C12_nested_api (sub : NSub) (sc : Script) (cfg : NCfg) (hR : NoRaise sc) (hC : NoCmds sc) (hD : Deterministic sc)
+    (hwf : cfg.states.WF = true) (hq : cfg.queued = false) (qmax ev : Nat) (s : NSt)
+    (hI : nestedWF cfg s.conf = true) (hidle : s.queue = []) (hdest : DestsResolve cfg ev) :
+    ∃ (b : Bool) (sa : NSt), napiMay sub sc cfg ev s = .ok b sa ∧ sa.conf = s.conf ∧
+      napiTrigger sub sc cfg qmax ev s ≠ .oof ∧
+      (b = true ↔ NExecutes (napiTrigger sub sc cfg qmax ev s) s) := by
+  have hc := ((nestedWF_iff cfg s.conf).mp hI).1
+  obtain ⟨sa, e, f⟩ := C12_nested_may_spec sub sc cfg hR hC hD ⟨0, s.nextTag⟩ ev
+    (({ s with nextTag := s.nextTag + 1 } : NSt).emit (.api 1 s.nextTag 0 ev)) hc
+  obtain ⟨hno, hiff⟩ := napiTrigger_executes sub sc cfg hC hwf hq qmax ev s hidle
+  obtain ⟨_, hex⟩ := C12_nested_trigger_spec sub sc cfg hR hC hD hwf ⟨0, s.nextTag⟩ ev
+    ((({ s with nextTag := s.nextTag + 1 } : NSt).emit (.api 0 s.nextTag 0 ev)).emitG (.api s.nextTag ev)) hc
+  refine ⟨(trigPairs s.conf).any (mayP sc cfg ev),
+    sa.emit (.ret s.nextTag ((trigPairs s.conf).any (mayP sc cfg ev))), ?_, f.conf, hno, ?_⟩
+  · simp only [napiMay]
+    rw [e]
+    rfl
+  · rw [hiff, hex]
+    have : (trigPairs s.conf).any (mayP sc cfg ev) = (trigPairs s.conf).any (trigP sc cfg ev) := by
+      congr 1
+      funext pr
+      exact mayP_eq_trigP sc cfg ev hdest pr
+    rw [this]
+    rfl
+
 /-- the decidable condition on the transition set implies `DestsResolve` for every event -/
 theorem C12_nested_destsOK (cfg : NCfg) (h : cfg.destsOK = true) (ev : Nat) : DestsResolve cfg ev :=
   destsOK_sound cfg h ev
